@@ -73,6 +73,10 @@ def generate(prng, tier, index):
     if prng.random() < 0.3:
         sc["extra_attrs"] = [prng.choice(interesting.ATTR_NAMES[:12]), prng.choice(("int", "float", "str"))]
     if prng.random() < 0.3:
+        # vertex INSERTION order differs from the labels (graph built from an edge list / relabelled / vertices added late)
+        sc["node_order"] = [prng.choice(("reversed", "shuffled", "edges_first")), prng.randrange(2 ** 31),
+                            prng.choice((None, None, "offset", "mirror", "gaps"))]
+    if prng.random() < 0.3:
         # representation of the vertex annotations: lists, or lists and tuples side by side in one network
         jt = prng.choice(("list", "mixed2", "mixed3"))
         if source == "direct":
@@ -191,6 +195,9 @@ def _execute(sc, ctx):
             ctx.probe("self_loops_removed")
     netsim.decorate(G, sc.get("extra_attrs"))
     netsim.retype_annotations(G, sc.get("jd_type"))
+    if sc.get("node_order"):
+        G = netsim.reordered(G, *sc["node_order"])
+        ctx.probe("vertex_insertion_order_differs_from_labels")
     if (sc.get("jd_type") or (sc.get("spec") or {}).get("jd_type") or "").startswith("mixed"):
         ctx.probe("mixed_annotation_types")
     names = netsim.names({"topos": topos})[: sc.get("names_prefix", len(topos))]
